@@ -1,8 +1,22 @@
 #!/bin/sh
-# extract the models and build the OCaml driver (run from anywhere)
-set -e
+# ocaml/build.sh [name...] : extract the models of ocaml/<name>/Extract.v and build ocaml/<name>/driver.
+# Without arguments every driver directory is built; a driver that fails to build is removed
+# (so that a stale binary can never stand in for a model that no longer compiles) and the
+# script exits non-zero after trying the others.
 cd "$(dirname "$0")"
-coqc -Q ../coq T38 ../coq/Extract/Extract.v >/dev/null
-rm -f model.mli
-ocamlfind ocamlopt -O2 -w -a -package str model.ml conv.ml driver_ext.ml driver.ml -o driver 2>/dev/null || \
-ocamlfind ocamlopt -w -a model.ml conv.ml driver_ext.ml driver.ml -o driver
+names="$*"
+[ -z "$names" ] && names=$(for d in */Extract.v; do dirname "$d"; done)
+rc=0
+for n in $names; do
+  (
+    set -e
+    cd "$n"
+    rm -f driver
+    cp ../conv.ml ../main.ml .
+    coqc -Q ../../coq T38 Extract.v >/dev/null
+    rm -f model.mli
+    ocamlfind ocamlopt -O3 -w -a model.ml conv.ml handlers.ml main.ml -o driver 2>/dev/null || \
+      ocamlfind ocamlopt -w -a model.ml conv.ml handlers.ml main.ml -o driver
+  ) || { echo "ocaml/build.sh: driver '$n' FAILED" >&2; rm -f "$n/driver"; rc=1; }
+done
+exit $rc
